@@ -25,9 +25,9 @@ const (
 const sectionLimit = uint64(1<<32 - 1) // needle_map.SectionalNeedleIdLimit
 
 func TestMain(m *testing.M) {
-	vlib.Rule(fmt.Sprintf("C05 (offset width %d bytes): (a) rapid-generated Set/Delete/Get sequences on needle_map.CompactMap and MemDb against a reference map: ascending runs of 129..400 keys or a full 100000-entry section as prelude, then inserts inside and beyond the 128-entry look-back window, re-sets and deletes of overflow entries, double deletes, keys 2^32 apart (new sections, aliasing probes), descending keys, sizes {0,1,max}, offsets over the whole range of the build's offset width; (b) bounded-exhaustive sequences of <=L operations {Set v1, Set v2, Delete} over 7 keys placed at the look-back/overflow/section boundaries of a 140-entry section; (c) index histories on the memory and LevelDB NeedleMappers as their callers drive them (monotone offsets; Volume deletes only what Get reports live, the incremental-backup replay also deletes keys that are already deleted or were never stored), reloaded from the .idx at drawn points, then served by the sorted-file map; (d) the same through a real Store/Volume. Non-trivial = the sequence has an out-of-order insert, or leaves an overflow entry, or reloads after a delete. Distinct = distinct written-out operation sequence.", types.OffsetSize))
+	vlib.Rule(fmt.Sprintf("C05 (offset width %d bytes): (a) rapid-generated Set/Delete/Get sequences on needle_map.CompactMap and MemDb against a reference map: ascending runs of 129..400 keys or a full 100000-entry section as prelude, then inserts inside and beyond the 128-entry look-back window, re-sets and deletes of overflow entries, double deletes, keys 2^32 apart (new sections, aliasing probes), descending keys, sizes {0,1,max}, offsets over the whole range of the build's offset width; (b) bounded-exhaustive sequences of <=L operations {Set v1, Set v2, Delete} over 7 keys placed at the look-back/overflow/section boundaries of a 140-entry section; (c) index histories on the memory and LevelDB NeedleMappers as their callers drive them (monotone offsets; Volume deletes only what Get reports live, the incremental-backup replay also deletes keys that are already deleted or were never stored), reloaded from the .idx at drawn points, then served by the sorted-file map; (d) the same through a real Store/Volume; (e) index files of up to 3*4096 entries written directly (entry counts drawn around multiples of the loaders' batch sizes idx.RowsToRead=1024 and 4096, generated new/overwrite/delete/redundant-tombstone segments) and opened with the memory, LevelDB and sorted-file maps: counters and MaxFileKey equal a forward fold of the entries, sampled lookups equal the fold's live set. Non-trivial = the sequence has an out-of-order insert, or leaves an overflow entry, or reloads / opens an index after a delete. Distinct = distinct written-out operation sequence.", types.OffsetSize))
 	vlib.Assume("C05: NeedleMapper histories respect what Volume guarantees: Put offsets are non-zero multiples of 8 that grow, sizes are >= 1 (empty needles are the subject of C01/C03 findings), Delete is called for keys that Get reports live (Volume) and, redundantly, for already deleted / never stored keys (VolumeFileScanner4GenIdx replay); a redundant delete may or may not append a tombstone to the .idx; after a reload MaxFileKey may also cover the key of such a tombstone")
-	vlib.Assume("C05: LevelDB/sorted-file maps recompute their counters with a Bloom filter (p=0.001); cases in which a replica of that filter reports a false positive are classified and their reloaded counters are not compared")
+	vlib.Assume("C05: LevelDB/sorted-file maps recompute their counters with a Bloom filter (p=0.001); in the history tests, cases in which a replica of that filter reports a false positive are classified and their reloaded deletion counters are not compared; in the large-index test the deletion counters must equal the fold plus exactly the entries the replica filter misreports")
 	vlib.Main(m)
 }
 
